@@ -188,14 +188,51 @@ Proof.
   - cbn [eval_expr]. rewrite H. cbn [bind]. apply convert_m_ok.
 Qed.
 
+Ltac streq :=
+  repeat match goal with
+  | |- context [String.eqb ?a ?b] =>
+      let r := eval vm_compute in (String.eqb a b) in change (String.eqb a b) with r
+  end.
+
+(* ---- packing ---- *)
+Lemma le_bytes_m_eq n v : le_bytes_m n v = le_bytes n v.
+Proof.
+  revert v. induction n as [|n IH]; intros v; cbn [le_bytes_m le_bytes]; [reflexivity|].
+  rewrite IH. change 255 with (2 ^ 8 - 1). rewrite land_ones_mod, shiftr_div by lia. reflexivity.
+Qed.
+
+Lemma pack_in_range t v :
+  llong_size c = 8 -> in_range dm t v = true ->
+  pack c t v = Ok (bytes_of (little_endian c) (sizeof c t) v).
+Proof.
+  intros H8 R. unfold pack.
+  assert (G : (sizeof c t =? match t with TLLong | TULLong => 8 | _ => sizeof c t end) = true)
+    by (destruct t; cbn [sizeof]; lia).
+  rewrite G. unfold guard, pack_int. unfold in_range, tmin, tmax in R.
+  rewrite bits_sizeof, signed_m in R.
+  destruct (is_signed_m t); rewrite R; unfold bytes_of; now rewrite le_bytes_m_eq.
+Qed.
+
+
+
+Section Generic.
+Variable pr : ity -> ity.
+Variable cm : ity -> ity -> ity.
+Local Notation promote_m := (promote_g pr).
+Local Notation pp_t := (pp_g pr).
+Local Notation elab := (elab_g pr cm).
+Local Notation elab_init := (elab_init_g pr cm).
+Local Notation sema_agrees := (sema_agrees_g pr cm).
+Local Notation common_type := cm.
+
 Lemma typ_promote x : typ_of (promote_m x) = pp_t (typ_of x).
-Proof. unfold promote_m, pp_t. destruct (mem_ty (typ_of x) promotable_types); [apply typ_coerce|reflexivity]. Qed.
+Proof. unfold promote_g, pp_g. destruct (mem_ty (typ_of x) promotable_types); [apply typ_coerce|reflexivity]. Qed.
 
 Lemma eval_promote x v :
   eval_expr c x = Ok v -> in_range dm (typ_of x) v = true ->
   eval_expr c (promote_m x) = Ok (convert dm (pp_t (typ_of x)) v).
 Proof.
-  intros H R. unfold promote_m, pp_t. destruct (mem_ty (typ_of x) promotable_types).
+  intros H R. unfold promote_g, pp_g. destruct (mem_ty (typ_of x) promotable_types).
   - now apply eval_coerce.
   - now rewrite convert_id.
 Qed.
@@ -212,11 +249,6 @@ Proof.
   - rewrite <- A, <- T. apply eval_promote; [assumption|]. rewrite T. now apply eval_in_range.
 Qed.
 
-Ltac streq :=
-  repeat match goal with
-  | |- context [String.eqb ?a ?b] =>
-      let r := eval vm_compute in (String.eqb a b) in change (String.eqb a b) with r
-  end.
 
 (* arithmetic, bitwise and comparison operators on operands converted to the common type *)
 Lemma binop_arith op x y t pa pb r :
@@ -279,19 +311,19 @@ Proof.
   induction e as [t z|t a IHa|op a IHa|op a IHa b IHb|x IHx a IHa b IHb]; intros SA.
   - reflexivity.
   - reflexivity.
-  - destruct op; cbn [sema_agrees] in SA; try (apply andb_prop in SA as [SA A]; apply ity_eqb_true in A);
-      cbn [elab type_of typ_of]; rewrite ?typ_promote, ?IHa by assumption; auto.
-  - cbn [sema_agrees] in SA. apply andb_prop in SA as [SA Aop]. apply andb_prop in SA as [SAa SAb].
+  - destruct op; cbn [sema_agrees_g] in SA; try (apply andb_prop in SA as [SA A]; apply ity_eqb_true in A);
+      cbn [elab_g type_of typ_of]; rewrite ?typ_promote, ?IHa by assumption; auto.
+  - cbn [sema_agrees_g] in SA. apply andb_prop in SA as [SA Aop]. apply andb_prop in SA as [SAa SAb].
     specialize (IHa SAa). specialize (IHb SAb).
-    destruct op; cbn [elab type_of typ_of is_int_result is_shift]; try reflexivity;
+    destruct op; cbn [elab_g type_of typ_of is_int_result is_shift]; try reflexivity;
       rewrite ?typ_promote, ?IHa, ?IHb;
       try (apply andb_prop in Aop as [Aop A3]; apply andb_prop in Aop as [A1 A2];
            apply ity_eqb_true in A3; exact A3);
       try (apply andb_prop in Aop as [A1 A2]; apply ity_eqb_true in A1; exact A1).
-  - cbn [sema_agrees] in SA.
+  - cbn [sema_agrees_g] in SA.
     apply andb_prop in SA as [SA Ac]. apply andb_prop in SA as [SA Ab]. apply andb_prop in SA as [SA Aa].
     apply andb_prop in SA as [SA SAb]. apply andb_prop in SA as [SAx SAa].
-    cbn [elab type_of typ_of]. rewrite !typ_promote, IHa, IHb by assumption. now apply ity_eqb_true.
+    cbn [elab_g type_of typ_of]. rewrite !typ_promote, IHa, IHb by assumption. now apply ity_eqb_true.
 Qed.
 
 (* ---- main theorem: evaluator = spec where ppci's typing is C's ---- *)
@@ -300,31 +332,31 @@ Theorem eval_exact e : forall v,
 Proof.
   induction e as [t z|t a IHa|op a IHa|op a IHa b IHb|x IHx a IHa b IHb]; intros v SA EV.
   - (* literal *) cbn in *. destruct (in_range dm t z); [|discriminate]. now injection EV as <-.
-  - (* cast *) cbn [sema_agrees eval elab eval_expr] in *.
+  - (* cast *) cbn [sema_agrees_g eval elab eval_expr] in *.
     destruct (eval dm a) as [va|] eqn:Ea; [|discriminate]. injection EV as <-.
     rewrite (IHa va SA eq_refl). cbn [bind]. apply convert_m_ok.
   - (* unary *)
     cbn [eval] in EV. destruct (eval dm a) as [va|] eqn:Ea; [|discriminate].
-    destruct op; cbn [sema_agrees] in SA.
+    destruct op; cbn [sema_agrees_g] in SA.
     + apply andb_prop in SA as [SA A]. pose proof (elab_type a SA) as T. pose proof (IHa va SA eq_refl) as E.
       destruct (operand a (elab a) va T E Ea A) as [T2 E2].
-      cbn [elab unop_str]. cbn [eval_expr]. streq. cbn [orb]. cbv iota.
+      cbn [elab_g unop_str]. cbn [eval_expr]. streq. cbn [orb]. cbv iota.
       rewrite E2. cbn [bind]. cbv [lookup unop_table]. streq. cbv iota beta. cbn [bind].
       rewrite convert_m_ok, T2. f_equal. unfold unop_0. now apply fit_convert.
     + apply andb_prop in SA as [SA A]. pose proof (elab_type a SA) as T. pose proof (IHa va SA eq_refl) as E.
       destruct (operand a (elab a) va T E Ea A) as [T2 E2].
-      cbn [elab unop_str]. cbn [eval_expr]. streq. cbn [orb]. cbv iota.
+      cbn [elab_g unop_str]. cbn [eval_expr]. streq. cbn [orb]. cbv iota.
       rewrite E2. cbn [bind]. cbv [lookup unop_table]. streq. cbv iota beta. cbn [bind].
       rewrite convert_m_ok, T2. unfold unop_1. now injection EV as <-.
     + pose proof (IHa va SA eq_refl) as E.
-      cbn [elab]. cbn [eval_expr]. streq. cbn [orb]. cbv iota.
+      cbn [elab_g]. cbn [eval_expr]. streq. cbn [orb]. cbv iota.
       rewrite E. cbn [bind]. cbv [lookup unop_table]. streq. cbv iota beta. cbn [bind].
       rewrite convert_m_ok. injection EV as <-. f_equal. apply convert_id, bool_in_int.
     + apply andb_prop in SA as [SA A]. pose proof (elab_type a SA) as T. pose proof (IHa va SA eq_refl) as E.
       destruct (operand a (elab a) va T E Ea A) as [T2 E2].
-      cbn [elab]. rewrite E2. now injection EV as <-.
+      cbn [elab_g]. rewrite E2. now injection EV as <-.
   - (* binary *)
-    cbn [sema_agrees] in SA. apply andb_prop in SA as [SA Aop]. apply andb_prop in SA as [SAa SAb].
+    cbn [sema_agrees_g] in SA. apply andb_prop in SA as [SA Aop]. apply andb_prop in SA as [SAa SAb].
     destruct (eval dm a) as [va|] eqn:Ea.
     2:{ destruct op; cbn [eval] in EV; rewrite Ea in EV; discriminate. }
     pose proof (elab_type a SAa) as Ta. pose proof (elab_type b SAb) as Tb.
@@ -355,7 +387,7 @@ Proof.
       destruct (Bool.bool_dec (match op with BLAnd | BLOr => true | _ => false end) true) as [Hl|Hl].
       * (* && || *)
         destruct op; try discriminate; cbn [eval] in EV; rewrite Ea in EV;
-          cbn [elab binop_str eval_expr]; streq; cbv iota; rewrite E1; cbn [bind].
+          cbn [elab_g binop_str eval_expr]; streq; cbv iota; rewrite E1; cbn [bind].
         -- destruct (va =? 0); [now injection EV as <-|].
            destruct (eval dm b) as [vb|] eqn:Eb; [|discriminate].
            rewrite (IHb vb SAb eq_refl). cbn [bind]. now injection EV as <-.
@@ -393,7 +425,7 @@ Proof.
         apply (binop_arith op _ _ t _ _ v Hs (ltac:(destruct op; discriminate)) (ltac:(destruct op; discriminate))
                  P1 (ltac:(rewrite T1; apply convert_in_range)) P2 (ltac:(rewrite T2; apply convert_in_range)) EV').
   - (* ?: *)
-    cbn [sema_agrees] in SA.
+    cbn [sema_agrees_g] in SA.
     apply andb_prop in SA as [SA Ac]. apply andb_prop in SA as [SA Ab]. apply andb_prop in SA as [SA Aa].
     apply andb_prop in SA as [SA SAb]. apply andb_prop in SA as [SAx SAa].
     cbn [eval] in EV. destruct (eval dm x) as [vx|] eqn:Ex; [|discriminate].
@@ -401,7 +433,7 @@ Proof.
     pose proof (elab_type a SAa) as Ta. pose proof (elab_type b SAb) as Tb.
     apply ity_eqb_true in Ac. pose proof (ity_eqb_true _ _ Aa) as Aa'. pose proof (ity_eqb_true _ _ Ab) as Ab'.
     cbn [type_of] in EV.
-    cbn [elab]. rewrite !typ_promote, Ta, Tb, Ac. cbn [eval_expr]. rewrite E0. cbn [bind].
+    cbn [elab_g]. rewrite !typ_promote, Ta, Tb, Ac. cbn [eval_expr]. rewrite E0. cbn [bind].
     destruct (vx =? 0); cbn [negb].
     + destruct (eval dm b) as [vb|] eqn:Eb; [|discriminate]. injection EV as <-.
       destruct (operand b (elab b) vb Tb (IHb vb SAb eq_refl) Eb Ab) as [T2 P2].
@@ -411,33 +443,51 @@ Proof.
       apply eval_coerce; [assumption|]. rewrite T1. apply convert_in_range.
 Qed.
 
-(* ---- packing of the global initializer ---- *)
-Lemma le_bytes_m_eq n v : le_bytes_m n v = le_bytes n v.
-Proof.
-  revert v. induction n as [|n IH]; intros v; cbn [le_bytes_m le_bytes]; [reflexivity|].
-  rewrite IH. change 255 with (2 ^ 8 - 1). rewrite land_ones_mod, shiftr_div by lia. reflexivity.
-Qed.
-
-Lemma pack_in_range t v :
-  llong_size c = 8 -> in_range dm t v = true ->
-  pack c t v = Ok (bytes_of (little_endian c) (sizeof c t) v).
-Proof.
-  intros H8 R. unfold pack.
-  assert (G : (sizeof c t =? match t with TLLong | TULLong => 8 | _ => sizeof c t end) = true)
-    by (destruct t; cbn [sizeof]; lia).
-  rewrite G. unfold guard, pack_int. unfold in_range, tmin, tmax in R.
-  rewrite bits_sizeof, signed_m in R.
-  destruct (is_signed_m t); rewrite R; unfold bytes_of; now rewrite le_bytes_m_eq.
-Qed.
-
 Theorem init_exact t e v :
   llong_size c = 8 -> sema_agrees dm e = true -> eval dm e = Some v ->
   global_init c t (elab_init t e) = Ok (bytes_of (little_endian c) (sizeof c t) (convert dm t v)).
 Proof.
-  intros H8 SA EV. unfold global_init, elab_init.
+  intros H8 SA EV. unfold global_init, elab_init_g.
   rewrite (eval_coerce (elab e) t v (eval_exact e v SA EV)).
   - cbn [bind]. apply pack_in_range; [assumption|apply convert_in_range].
   - rewrite (elab_type e SA). now apply eval_in_range.
+Qed.
+
+End Generic.
+
+(* ---- the current helpers (c83990b) are C's integer promotions / usual arithmetic conversions ---- *)
+Lemma promote_ok t : pp_g (promote_t c) t = promote dm t.
+Proof.
+  destruct Hwf as (A & B & C). unfold pp_g, promote_t, promote, dm.
+  destruct t; cbn [mem_ty existsb promotable_types ity_eqb orb rank is_signed_m signed_types negb andb sizeof
+                   Z.ltb Z.compare Pos.compare Pos.compare_cont]; dmsimp; try reflexivity;
+    cbn [orb]; try reflexivity.
+  - destruct (Z.ltb_spec 8 (8 * int_size c)), (Z.geb_spec 1 (int_size c)); try lia; reflexivity.
+  - destruct (Z.ltb_spec 16 (8 * int_size c)), (Z.geb_spec 2 (int_size c)); try lia; reflexivity.
+Qed.
+
+Lemma common_ok a b : common_type_c c a b = uac dm a b.
+Proof.
+  destruct Hwf as (A & B & C). unfold common_type_c, uac, dm.
+  destruct a, b; cbn -[Z.mul Z.gtb Z.geb Z.ltb Z.leb int_size long_size llong_size]; try reflexivity;
+    repeat match goal with
+    | |- context [?x >? ?y] => destruct (Z.gtb_spec x y); try lia
+    | |- context [?x <? ?y] => destruct (Z.ltb_spec x y); try lia
+    end; reflexivity.
+Qed.
+
+Lemma ity_eqb_refl t : ity_eqb t t = true.
+Proof. destruct t; reflexivity. Qed.
+
+Lemma sema_agrees_all e : sema_agrees c dm e = true.
+Proof.
+  unfold sema_agrees.
+  induction e as [t z|t a IHa|op a IHa|op a IHa b IHb|x IHx a IHa b IHb]; cbn [sema_agrees_g].
+  - reflexivity.
+  - assumption.
+  - destruct op; rewrite ?IHa, ?promote_ok, ?ity_eqb_refl; reflexivity.
+  - rewrite IHa, IHb. destruct op; rewrite ?promote_ok, ?common_ok, ?ity_eqb_refl; reflexivity.
+  - rewrite IHx, IHa, IHb, !promote_ok, common_ok, !ity_eqb_refl. reflexivity.
 Qed.
 
 End Ctx.
@@ -447,21 +497,33 @@ Definition x86_64 : cctx := mkctx 4 8 8 true.
 Definition arm32 : cctx := mkctx 4 4 8 true.
 Definition msp430 : cctx := mkctx 2 4 8 true.
 
-Lemma eval_exact_partial c e ty v :
-  wf_ctx c -> sema_agrees (dm_of c) e = true -> const_eval (dm_of c) e = Some (ty, v) ->
-  eval_expr c (elab e) = Ok v /\ typ_of (elab e) = ty.
+(* full statements: the typing helpers of the current code are C's on every operand pair *)
+Lemma eval_exact_full c e ty v :
+  wf_ctx c -> const_eval (dm_of c) e = Some (ty, v) ->
+  eval_expr c (elab c e) = Ok v /\ typ_of (elab c e) = ty.
+Proof.
+  intros W H. unfold const_eval in H. destruct (eval (dm_of c) e) as [v'|] eqn:E; [|discriminate].
+  injection H as <- <-. pose proof (sema_agrees_all c W e) as SA. unfold elab. split.
+  - now apply eval_exact.
+  - now apply elab_type.
+Qed.
+
+Lemma converted_full c t e ty v :
+  wf_ctx c -> llong_size c = 8 -> const_eval (dm_of c) e = Some (ty, v) ->
+  global_init c t (elab_init c t e) =
+  Ok (bytes_of (little_endian c) (sizeof c t) (convert (dm_of c) t v)).
+Proof.
+  intros W H8 H. unfold const_eval in H. destruct (eval (dm_of c) e) as [v'|] eqn:E; [|discriminate].
+  injection H as _ <-. unfold elab_init. apply init_exact; try assumption. apply (sema_agrees_all c W).
+Qed.
+
+(* the same for any typing helpers, on the fragment where they agree with C (used for the old rule) *)
+Lemma eval_exact_partial pr cm c e ty v :
+  wf_ctx c -> sema_agrees_g pr cm (dm_of c) e = true -> const_eval (dm_of c) e = Some (ty, v) ->
+  eval_expr c (elab_g pr cm e) = Ok v /\ typ_of (elab_g pr cm e) = ty.
 Proof.
   intros W SA H. unfold const_eval in H. destruct (eval (dm_of c) e) as [v'|] eqn:E; [|discriminate].
   injection H as <- <-. split; [now apply eval_exact|now apply elab_type].
-Qed.
-
-Lemma converted_partial c t e ty v :
-  wf_ctx c -> llong_size c = 8 -> sema_agrees (dm_of c) e = true -> const_eval (dm_of c) e = Some (ty, v) ->
-  global_init c t (elab_init t e) =
-  Ok (bytes_of (little_endian c) (sizeof c t) (convert (dm_of c) t v)).
-Proof.
-  intros W H8 SA H. unfold const_eval in H. destruct (eval (dm_of c) e) as [v'|] eqn:E; [|discriminate].
-  injection H as _ <-. now apply init_exact.
 Qed.
 
 (* the defects of the evaluator before the fixes (model Model/CEvalOrig.v) *)
@@ -510,7 +572,7 @@ Lemma converted_refuted :
   bytes_of true 1 (convert (dm_of x86_64) TUChar 300) = [44].
 Proof. vm_compute. repeat split. Qed.
 
-(* how large the fragment is: where get_common_type / promote agree with C, per data model *)
+(* the helpers BEFORE c83990b (promote = always int, get_common_type = max rank): where they differ from C *)
 Definition agree_pair (dm : datamodel) (a b : ity) : bool :=
   ity_eqb (pp_t a) (promote dm a) && ity_eqb (pp_t b) (promote dm b) &&
   ity_eqb (common_type (pp_t a) (pp_t b)) (uac dm (promote dm a) (promote dm b)).
@@ -531,6 +593,5 @@ Proof. destruct t; cbn; tauto. Qed.
 
 Lemma nonvacuous :
   wf_ctx x86_64 /\ llong_size x86_64 = 8 /\
-  sema_agrees (dm_of x86_64) (EBin BDiv (EUn UNeg (lit 7)) (ELit TUInt 2)) = true /\
-  const_eval (dm_of x86_64) (EBin BDiv (EUn UNeg (lit 7)) (ELit TUInt 2)) = Some (TUInt, 2147483644).
+    const_eval (dm_of x86_64) (EBin BDiv (EUn UNeg (lit 7)) (ELit TUInt 2)) = Some (TUInt, 2147483644).
 Proof. unfold wf_ctx. vm_compute. repeat split; discriminate. Qed.
